@@ -394,7 +394,68 @@ func checkAfterFailure(c *core.Ctx, failAt string) {
 	c.Nontrivial("after-failure " + failAt)
 }
 
+// checkTwoModules: an All run whose entrypoints lie in two modules (a main module and a locally replaced one): every
+// file of the tree - gengo.sum and WHERE it is written included - is the same for both orders of the entrypoints,
+// under every global map-iteration policy, and after a second run.
+func checkTwoModules(c *core.Ctx) {
+	tree := pipe.Tree{
+		"go.mod":          pipe.GoMod("alpha.io/a", "1.24") + "\nrequire beta v0.0.0\n\nreplace beta => ./legacy\n",
+		"x/x.go":          "package x\n\nimport (\n\t\"alpha.io/a/z\"\n\t\"beta/y\"\n)\n\n// X uses one package of each module.\ntype X struct {\n\tZ z.Z\n\tY y.Y\n}\n",
+		"z/z.go":          "package z\n\n// Z is local.\ntype Z struct{ V int }\n",
+		"legacy/go.mod":   pipe.GoMod("beta", "1.22"),
+		"legacy/y/y.go":   "package y\n\n// Y lives in the other module.\ntype Y struct{ W string }\n",
+		"legacy/y2/y2.go": "package y2\n\nimport \"beta/y\"\n\n// Y2 too.\ntype Y2 struct{ Y y.Y }\n",
+	}
+	type tcase struct {
+		Entry  []string `json:"entrypoints_two_modules"`
+		Def    int      `json:"seam_default_policy"`
+		Second bool     `json:"after_a_second_run,omitempty"`
+	}
+	run := func(entry []string, def int, runs int) (pipe.Tree, bool) {
+		dir := pipe.TempDir("c04m")
+		defer os.RemoveAll(dir)
+		_ = pipe.WriteTree(dir, tree)
+		seamctl.Set(def, nil)
+		defer seamctl.Set(0, nil)
+		for i := 0; i < runs; i++ {
+			o := pipe.Exec(pipe.Spec{Dir: dir, Entrypoints: entry, All: true, Globals: map[string][]string{"gengo:g1": {"true"}},
+				Gens: []pipe.GenScript{{Name: "g1", Default: pipe.Action{Render: "var V_$T_$G = 1\n"}}}})
+			c.Trans(1)
+			if !o.OK() {
+				c.Fail("", tcase{entry, def, i > 0}, "All run over two modules failed: load=%q err=%q panic=%q", o.LoadErr, o.Err, o.Panic)
+				return nil, false
+			}
+		}
+		t, _ := pipe.ReadTree(dir)
+		return t, true
+	}
+	orders := [][]string{{"./x", "beta/y2"}, {"beta/y2", "./x"}, {"./z", "beta/y", "./x"}, {"beta/y", "./x", "./z"}}
+	for _, runs := range []int{1, 2} {
+		refs := map[int]pipe.Tree{}
+		for oi, entry := range orders {
+			for d := 0; d < seamctl.NPolicies; d++ {
+				c.Eval(1)
+				t, ok := run(entry, d, runs)
+				if !ok {
+					return
+				}
+				group := oi / 2 // orders 0,1 select the same packages, and so do 2,3
+				if ref, have := refs[group]; !have {
+					refs[group] = t
+				} else if cr, ch, de := pipe.Diff(ref, t); len(cr)+len(ch)+len(de) > 0 {
+					c.Fail("", tcase{entry, d, runs == 2}, "%d All run(s) over two modules, entrypoints %v under map-order policy %d: the tree differs from the one of entrypoints %v under the default order: only here %v, changed %v, missing here %v", runs, entry, d, orders[group*2], cr, ch, de)
+				}
+			}
+		}
+	}
+	c.Nontrivial("two-modules")
+	c.Bound("two_module_all_runs", "entrypoint orders x every global map-order policy x 1 and 2 runs; whole tree compared, incl. where gengo.sum is written")
+}
+
 func run(c *core.Ctx) {
+	if c.Next() {
+		checkTwoModules(c)
+	}
 	sites := seamctl.Sites("")
 	c.Bound("seam_available", seamctl.Available())
 	c.Bound("seam_sites", sites)
@@ -509,6 +570,10 @@ func run(c *core.Ctx) {
 }
 
 func replay(c *core.Ctx, raw json.RawMessage) {
+	if strings.Contains(string(raw), "entrypoints_two_modules") {
+		checkTwoModules(c) // (the comparison needs the whole group)
+		return
+	}
 	var cs Case
 	if err := json.Unmarshal(raw, &cs); err != nil {
 		c.Internal("bad case: %v", err)
